@@ -264,6 +264,7 @@ func init() {
 				text, form = b.String(), "json"
 			}
 			c := sx.L(sx.A(form), sx.A(text))
+			noteCase("C09", text)
 			p, err := pipeline.Parse(strings.NewReader(text))
 			if err != nil && !warning.Is(err) {
 				continue
